@@ -38,7 +38,7 @@ TRUSTED_BASE = [
     "Kani 0.68.0 / CBMC 6.11.0 / CaDiCaL (compiler front end rustc->MIR->GOTO, bit-precise semantics, SAT back end)",
     "tokio replaced by /verif/models/tokio (single-threaded deterministic model of mpsc/oneshot/watch/locks/spawn/time; contracts from tokio docs; cross-checked natively against real tokio by /verif/conformance)",
     "tokio-util replaced by /verif/models/tokio-util (ReusableBoxFuture = Pin<Box<dyn Future>>; codec stubs unreachable)",
-    "tracing compiled with max_level_off (log statements are no-ops)",
+    "tracing replaced by /verif/models/tracing: every event/span macro and #[instrument] is a no-op (real tracing reaches code that crashes the Kani compiler)",
     "alloc::fmt::format stubbed to return an empty String where a harness says so (error texts are not the subject)",
     "std::hash::RandomState::new stubbed to fixed keys where a harness says so (hash-map keys are then drawn from concrete sets)",
     "hooks in remoc guarded by cfg(remoc_verif): add-only accessors/constructors, no change to existing lines",
@@ -69,11 +69,15 @@ def target_dir(k):
 
 
 def kani_cmd(tdir, names, cap, extra=()):
-    cmd = ["cargo", "kani", "-Z", "stubbing", "-Z", "unstable-options", "--no-default-features", "--features",
-           FEATURES, "--target-dir", tdir, "--harness-timeout", "%ds" % cap, "--exact"]
+    cmd = ["cargo", "kani", "-Z", "stubbing", "-Z", "unstable-options", "-Z", "restrict-vtable",
+           "--no-default-features", "--features", FEATURES, "--target-dir", tdir, "--harness-timeout", "%ds" % cap,
+           "--exact"]
     for n in names:
         cmd += ["--harness", n]
     cmd += list(extra)
+    # must be last: without a larger field-sensitivity bound CBMC stops propagating constants through
+    # every heap object above 64 bytes (Arc<Mutex<..>> state then looks symbolic and nothing terminates)
+    cmd += ["--cbmc-args", "--max-field-sensitivity-array-size", "4096"]
     return cmd
 
 
